@@ -114,7 +114,7 @@ func checkC04(c *Ctx, r *Report) {
 	for _, f := range c.FuncsNamed("(*" + headersPkg + ".HeaderDirectives).ShouldCache") {
 		ignoreName := "$ignoreCacheControl"
 		if len(f.Params) >= 2 {
-			ignoreName = "$" + f.Params[1].Name()
+			ignoreName = "$" + pname(f.Params[1])
 		}
 		classify := func(a string) string {
 			switch {
@@ -174,7 +174,7 @@ func checkC04(c *Ctx, r *Report) {
 				return
 			}
 			fv, _, is := fieldOf(st.Addr)
-			if !is || fv.Name() != "noCache" {
+			if !is || fname(fv) != "noCache" {
 				return
 			}
 			if b, isC := constBool(st.Val); !isC || !b {
@@ -239,7 +239,7 @@ func checkC04(c *Ctx, r *Report) {
 		var flagStores []ssa.Instruction
 		eachInstr(f, func(in ssa.Instruction) {
 			if st, ok := in.(*ssa.Store); ok {
-				if fv, _, is := fieldOf(st.Addr); is && fv.Name() == "noCache" {
+				if fv, _, is := fieldOf(st.Addr); is && fname(fv) == "noCache" {
 					if b, isC := constBool(st.Val); isC && b {
 						flagStores = append(flagStores, in)
 					}
